@@ -41,6 +41,7 @@ def Op.ok (s : St) : Op → Prop
   | .update kvs => (s.names ≠ [] ∨ s.objs = []) ∧ (kvs.map (·.2)).Nodup ∧ (∀ kv ∈ kvs, kv.2 ∉ s.objs)
   | .popIdx _ => True
   | .popKey _ => True
+  | .popKeyD _ _ => True
   | .remove _ => True
   | .clear => True
   | .replaceList os => os.Nodup
@@ -279,6 +280,32 @@ theorem step_preserves_inv (hstr : ∀ a b, str a = str b → a = b) (s : St) (o
               · simp
               · simpa using ih
           exact this.nodup hvn
+  | popKeyD k d =>
+    simp only [step]
+    split
+    · exact ⟨hnd, hn⟩
+    · rename_i hstyle
+      split
+      · exact ⟨hnd, hn⟩
+      · rename_i o hg
+        rcases hn with h' | h'
+        · simp [h', Dict.get?] at hg
+        · have hvn : (s.names.map (·.2)).Nodup := h'.1 ▸ hnd
+          have hrm := Dict.erase_vals hvn hg
+          rw [h'.1] at hrm
+          rw [hrm]
+          refine ⟨?_, Or.inr ⟨rfl, (Dict.erase_keys_sublist _ _).nodup h'.2⟩⟩
+          have : ((Dict.erase s.names k).map (·.2)).Sublist (s.names.map (·.2)) := by
+            clear hrm hg hvn h' hstyle hnd
+            induction s.names with
+            | nil => simp [Dict.erase]
+            | cons kv d ih =>
+              obtain ⟨k', v'⟩ := kv
+              simp only [Dict.erase]
+              split
+              · simp
+              · simpa using ih
+          exact this.nodup hvn
   | remove o =>
     simp only [step]
     split
@@ -477,10 +504,28 @@ theorem popKey_returns_removed (s : St) (k : Key) (o : Obj) (h : Inv s)
 raises exactly one `objects` notification, a failing one none, and a value
 assignment none. -/
 theorem one_notification_per_mutation (s : St) (op : Op) :
-    ((step str s op).2.err = none → (∀ v, op ≠ .assign v) → (step str s op).2.notifs.length = 1) ∧
+    ((step str s op).2.err = none → (∀ v, op ≠ .assign v) →
+      (∀ k d, op = .popKeyD k d → Dict.get? s.names k ≠ none) → (step str s op).2.notifs.length = 1) ∧
     ((step str s op).2.err ≠ none → (step str s op).2.notifs = []) ∧
     (∀ v, op = .assign v → (step str s op).2.notifs = []) := by
   cases op <;> simp only [step] <;> (repeat' split) <;> simp_all
+
+/-- `pop(key, default)` of a missing key is `dict.pop`: the default comes back, nothing changes,
+nobody is notified (before fix 703bb42 the *default* was removed from the objects, or ValueError) -/
+theorem popKeyD_missing_returns_default (s : St) (k : Key) (d : Obj) (hs : s.names ≠ [] ∨ s.objs = [])
+    (hk : Dict.get? s.names k = none) :
+    step str s (.popKeyD k d) = (s, { ret := some d }) := by
+  simp only [step]
+  split
+  · rename_i h; rcases hs with h' | h'
+    · exact absurd h.2 h'
+    · exact absurd h' h.1
+  · simp [hk]
+
+/-- … and of an existing key it is `pop(key)` -/
+theorem popKeyD_present_is_popKey (s : St) (k : Key) (d o : Obj) (hk : Dict.get? s.names k = some o) :
+    step str s (.popKeyD k d) = step str s (.popKey k) := by
+  simp only [step, hk]
 
 /-- the notification carries the view before and after the call -/
 theorem notification_payload (s : St) (op : Op) (old new : Payload)
